@@ -116,8 +116,12 @@ AAddEqS       == /\ S("AddEqS")
 ASubEqS       == /\ S("SubEqS")
 AMulEqS       == /\ S("MulEqS")
 ADivEqS       == /\ S("DivEqS")
+AAddEqE       == /\ \E p \in Rot3, i \in 0..(MaxLen - 1) : Do("AddEqE", p[1], p[2], p[3], <<i>>)
+ASubEqE       == /\ \E p \in Rot3, i \in 0..(MaxLen - 1) : Do("SubEqE", p[1], p[2], p[3], <<i>>)
+AMulEqE       == /\ \E p \in Rot3, i \in 0..(MaxLen - 1) : Do("MulEqE", p[1], p[2], p[3], <<i>>)
+ADivEqE       == /\ \E p \in Rot3, i \in 0..(MaxLen - 1) : Do("DivEqE", p[1], p[2], p[3], <<i>>)
 ARep          == /\ \E p \in Rot3, n \in 0..3 : Do("Rep", p[1], p[2], p[3], <<n>>)
-ASeq          == /\ \E f, t \in Vals, b \in 1..3 : Do("Seq", "-", "-", "-", <<f, t, b>>)
+ASeq          == /\ \E f, t \in Vals \cup {-250, 199, 300}, b \in {1, 2, 3, 50, 100, 200} : Do("Seq", "-", "-", "-", <<f, t, b>>)
 AAdd          == /\ (B("Add") \/ BA("Add"))
 ASub          == /\ (B("Sub") \/ BA("Sub"))
 AMul          == /\ (B("Mul") \/ BA("Mul"))
@@ -158,7 +162,7 @@ Next ==
   \/ AWhichMin \/ AWhichMax \/ AWhichMinAll \/ AWhichMaxAll \/ ARange \/ AOrder \/ AUnique
   \/ AIsUnique \/ ACountValues \/ AMedian
   \/ AWhich \/ AWhichAll \/ AContains \/ AFill \/ AAndEq \/ AAddS \/ ASAdd \/ ASubS \/ ASSub
-  \/ AMulS \/ ASMul \/ ADivS \/ ASDiv \/ AAddEqS \/ ASubEqS \/ AMulEqS \/ ADivEqS \/ ARep \/ ASeq
+  \/ AMulS \/ ASMul \/ ADivS \/ ASDiv \/ AAddEqS \/ ASubEqS \/ AMulEqS \/ ADivEqS \/ AAddEqE \/ ASubEqE \/ AMulEqE \/ ADivEqE \/ ARep \/ ASeq
   \/ AAdd \/ ASub \/ AMul \/ ADiv \/ ASumProd \/ AScalar \/ AScalar3 \/ AKron \/ AUnion \/ AInter
   \/ ASameC \/ ASame \/ AContainsAll \/ AExtract \/ AAddEq \/ ASubEq \/ AMulEq \/ ADivEq
   \/ AAppend \/ APrepend \/ AExtend \/ ADiff \/ AUnionAll \/ AInterAll \/ AConcat
